@@ -6,6 +6,7 @@ mod counters;
 mod ev;
 mod refmodel;
 mod util;
+mod watchdog;
 
 #[global_allocator]
 static GLOBAL: alloc::Counting = alloc::Counting;
@@ -83,6 +84,8 @@ fn main() {
         "C20" => (ex, Box::new(|r| checks::c20::run(r))),
         _ => usage(),
     };
+    // a guarded library call that runs for minutes is a hang (the longest legitimate one takes about a second)
+    watchdog::start_global(id.to_string(), if tier == "thorough" { 600.0 } else { 120.0 });
     let run = ev::Run::new(id, &tier, level);
     let r = std::panic::catch_unwind(std::panic::AssertUnwindSafe(|| {
         f(&run);
